@@ -325,6 +325,29 @@ def codes_of(text, schema):
         return [("EXN:" + type(e).__name__ + ":" + str(e)[:60], 0)]
 
 
+def judged(text, schema):
+    """(codes, places): places = for every issue that names a part of a tag, (code, severity, start, end, fragment) with
+    the positions counted from the end of the tag's namespace and the fragment cut from the tag as written"""
+    from hed.models.hed_string import HedString
+    try:
+        issues = HedString(text, schema).validate()
+    except Exception as e:  # noqa
+        return [("EXN:" + type(e).__name__ + ":" + str(e)[:60], 0)], []
+    places = []
+    for i in issues:
+        if i.get("index_in_tag") is None or "source_tag" not in i:
+            continue
+        tag = i["source_tag"]
+        org = getattr(tag, "org_tag", str(tag))
+        n = len(getattr(tag, "schema_namespace", "") or "")
+        a, b = i["index_in_tag"], i.get("index_in_tag_end")
+        if a in (0, n) and (b is None or b == len(org)):
+            places.append((i["code"], i["severity"], "whole tag", "", org[n:]))     # the issue names the tag as a whole
+        else:
+            places.append((i["code"], i["severity"], a - n, None if b is None else b - n, org[a:b]))
+    return sorted((i["code"], i["severity"]) for i in issues), sorted(places, key=repr)
+
+
 def render(items, p):
     return ", ".join(("(" + render(x, p) + ")") if k == "G" else (p + x) for k, x in items)
 
@@ -348,12 +371,14 @@ def t_equiv(task):
         sf = bool(S.schema_83_props)
         out = []
         for a in anns:
-            g = codes_of(render(a, p), G)
-            s = codes_of(render(a, ""), S)
+            g, gp = judged(render(a, p), G)
+            s, sp = judged(render(a, ""), S)
             f = None
             if g != s and gf != sf:
                 f = codes_of(render(a, ""), w_forced(key, gf))
-            out.append((g, s, f, gf, sf))
+            elif g == s and gp != sp and gf != sf:
+                f = ("places", judged(render(a, ""), w_forced(key, gf))[1])
+            out.append((g, s, f, gf, sf, gp, sp))
         res.append(out)
     return res
 
@@ -465,7 +490,9 @@ def t_resolve(task):
                         "long": e.long_tag_name if e else "", "rem": rem,
                         "same": (e2 is e) and sorted(i["code"] for i in iss2) == sorted(i["code"] for i in iss),
                         "codes": sorted(i["code"] for i in iss), "long_tag": tag.long_tag, "obt": tag.org_base_tag,
-                        "cap": len(tv.check_capitalization(tag)), "getent": ge.name if ge else None})
+                        "cap": len(tv.check_capitalization(tag)), "getent": ge.name if ge else None,
+                        "span": next(([i["index_in_tag"], i["index_in_tag_end"]] for i in iss
+                                      if i["code"] == "TAG_EXTENSION_INVALID" and i.get("index_in_tag") is not None), None)})
         except Exception as ex:  # noqa
             out.append({"exn": type(ex).__name__ + ":" + str(ex)[:80]})
     return out
@@ -800,6 +827,13 @@ def gen_tag(rng, tags, exotic=True):
         return parts[-1].upper()
     if x < 0.58:
         return parts[-1].lower()
+    if x < 0.62:
+        # an extension chain: 0-3 unknown words of length 1..8, then possibly a word that is a tag of the schema
+        words = ["".join(rng.choice("abxyQz") for _ in range(rng.choice([1, 1, 2, 2, 3, 5, 8]))) for _ in range(rng.randint(0, 3))]
+        if rng.random() < 0.7:
+            words.append(rng.choice(tags)["long"].split("/")[-1] if rng.random() < 0.7 else "Red")
+            words = [w for w in words if w != "#"] or ["Red"]
+        return "/".join([parts[-1]] + words) if words else parts[-1]
     if x < 0.70:
         return parts[-1] + "/" + rng.choice(["Ext-a", "ext", "Red", "x y", "3", "Item", "Blue-x", "é"])
     if x < 0.75 and exotic:
@@ -917,11 +951,17 @@ def ops_index(outs, k):
 
 
 def oracle_equiv(res, vlist, p, key, a, obs):
-    g, s, f, gf, sf = obs
-    if g == s:
-        return True
+    g, s, f, gf, sf, gp, sp = obs
     case = {"kind": "equiv", "vlist": vlist, "prefix": p, "key": key, "ann": a,
             "text_group": render(a, p), "text_alone": render(a, "")}
+    if g == s:
+        if gp != sp:
+            # same codes, but an issue names another part of a tag (position counted after the namespace, fragment)
+            # class C13-F1: the places coincide once p's schema is given the group's character-rule generation
+            fid = "C13-F1" if (gf != sf and isinstance(f, tuple) and f[0] == "places" and f[1] == gp) else None
+            res.report(("prefixed" if p else "unprefixed") + "-equals-alone-places", case, f"group={gp} alone={sp}", fid=fid)
+            return False
+        return True
     fid = classify(p, a, g, s, f, gf, sf)
     clause = "prefixed-equals-alone" if p else "unprefixed-equals-alone"
     res.report(clause, case, f"group={g} alone={s}", fid=fid)
@@ -1158,7 +1198,8 @@ def _run(rng, thorough, wide, res, model_ok, scratch):
             idx[("res", ci)] = len(main_lines)
             for t in texts:
                 main_lines += ["(resolve C%d %s)" % (ci, sx_s(t)), "(cap %d C%d %s)" % (FIXED, ci, sx_s(t)),
-                          "(getent C%d %s %s)" % (ci, sx_s(t), sx_s(re.match(r"^[^:/]*:", t).group(0) if re.match(r"^[^:/]*:", t) else ""))]
+                          "(getent C%d %s %s)" % (ci, sx_s(t), sx_s(re.match(r"^[^:/]*:", t).group(0) if re.match(r"^[^:/]*:", t) else "")),
+                          "(span C%d %s)" % (ci, sx_s(t))]
         for ci, (vl, lists) in enumerate(grp_tasks):
             idx[("grp", ci)] = len(main_lines)
             main_lines += ["(grp C%d (%s))" % (ci, " ".join(sx_s(t) for t in l)) for l in lists]
@@ -1451,14 +1492,15 @@ def _run(rng, thorough, wide, res, model_ok, scratch):
             for k, (t, o) in enumerate(zip(texts, outs or [])):
                 corr += 1
                 evaluations += 1
-                m, mc, mg = out[base + 3 * k], out[base + 3 * k + 1], out[base + 3 * k + 2]
+                m, mc, mg, ms = out[base + 4 * k], out[base + 4 * k + 1], out[base + 4 * k + 2], out[base + 4 * k + 3]
                 if "exn" in o:
                     corr_violation("resolve", {"vlist": vl, "text": t}, o["exn"])
                     continue
                 mm = {"ns": un(m[0]), "found": m[1] == "1", "name": un(m[2]), "long": un(m[3]),
                       "rem": None if m[4] == "none" else un(m[4][0]),
                       "codes": sorted(KIND2CODE.get(x, x) for x in m[5]), "long_tag": un(m[6]), "obt": un(m[7]),
-                      "cap": int(mc), "getent": un(mg[1]) if mg[0] == "1" else None}
+                      "cap": int(mc), "getent": un(mg[1]) if mg[0] == "1" else None,
+                      "span": None if ms == "none" else [int(ms[0]), int(ms[1])]}
                 oo = {k2: o[k2] for k2 in mm}
                 if not t.isascii():
                     mm["cap"] = oo["cap"]
@@ -1547,7 +1589,10 @@ def replay(payload):
             print("group  :", render(a, case["prefix"]), "->", obs[0])
             print("alone  :", render(a, ""), "->", obs[1])
             if obs[0] != obs[1]:
-                print("FAILS: verdicts differ; known class:", classify(case["prefix"], a, *obs))
+                print("FAILS: verdicts differ; known class:", classify(case["prefix"], a, *obs[:5]))
+                return 1
+            if obs[5] != obs[6]:
+                print("FAILS: same codes, but the issues name different parts of the tags:\n  group:", obs[5], "\n  alone:", obs[6])
                 return 1
             return 0
         if kind == "badprefix":
